@@ -180,21 +180,22 @@ structure Query where
   filters : Filters := {}
   deriving Repr
 
+/-- `start`, defaulting to `datetime.min` -/
+def startOf (q : Query) : Nat := match q.start with | some s => s | none => 0
+/-- `end`, defaulting to `datetime.max` -/
+def stopOf (q : Query) : Nat := match q.stop with | some e => e | none => maxT
+
 /-- the adjusted period `(start, end-1µs, dir_start)` or the error `find` raises -/
 def period (cfg : Config) (q : Query) : Except Err (Nat × Nat × Nat) :=
-  let s := match q.start with | some s => s | none => 0
-  let stop := match q.stop with | some e => e | none => maxT
-  if stop = 0 then .error .overflow           -- datetime.min - 1µs
+  if stopOf q = 0 then .error .overflow           -- datetime.min - 1µs
+  else if stopOf q - 1 < startOf q then .error .valueError
   else
-    let e := stop - 1
-    if e < s then .error .valueError
-    else
-      match subDirRes cfg.layout with
-      | none => .ok (s, e, s)
-      | some r =>
-        if s = 0 then .ok (s, e, s)
-        else if s < r then .error .overflow   -- start - resolution precedes datetime.min
-        else .ok (s, e, s - r)
+    match subDirRes cfg.layout with
+    | none => .ok (startOf q, stopOf q - 1, startOf q)
+    | some r =>
+      if startOf q = 0 then .ok (startOf q, stopOf q - 1, startOf q)
+      else if startOf q < r then .error .overflow   -- start - resolution precedes datetime.min
+      else .ok (startOf q, stopOf q - 1, startOf q - r)
 
 /-- the generator `file_finder` of `find`, in traversal order -/
 def findRaw (cfg : Config) (q : Query) (pop : List FileRec) : Except Err (List FileRec) :=
